@@ -531,7 +531,14 @@ int main(int argc, char** argv) {
           std::string where = " [session call " + std::to_string(k) + " kind=" + (kind == 0 ? "istream" : kind == 1 ? "reader1" : kind == 2 ? "reader7" : "istream-chunked") + "]";
           if (calls[k].str("code") != errName(e)) problem = "code expected=" + calls[k].str("code") + " got=" + errName(e) + where;
           else if (calls[k].str("code") == "Ok") {
-            std::string d = bv::compare(doc.as<JsonVariantConst>(), calls[k].at("v"), o.boolean("nan"), o.boolean("inf"), false);
+            // "bulk" documents (containers with more than 65535 elements, too large for TLC's sequence operators)
+            // come from the encoder that wrote them: element count and bytes consumed are compared
+            const mj::Value& want = calls[k].at("v");
+            std::string d;
+            if (want.str("t") == "bulk") {
+              if ((long long)doc.size() != want.num("n")) d = "container size " + std::to_string(doc.size()) + " expected " + std::to_string(want.num("n"));
+            } else
+            d = bv::compare(doc.as<JsonVariantConst>(), want, o.boolean("nan"), o.boolean("inf"), false);
             if (!d.empty()) problem = "value " + d + where;
             else if (now - before != calls[k].num("read"))
               problem = "consumed expected=" + std::to_string(calls[k].num("read")) + " got=" + std::to_string(now - before) + where;
